@@ -5,6 +5,8 @@ mod outcome;
 mod prng;
 mod runner;
 mod selftest;
+#[cfg(feature = "serde-client")]
+mod serdecl;
 mod shrink;
 mod sink;
 mod stream;
